@@ -1137,17 +1137,26 @@ def p_qualifier(p):
             parser_token=p)
 
     flavors = _build_flavors(p, flavorlist, qualdecl, qualdecl.name)
-    if len(p) in (3, 5):
-        # A qualifier value was specified (possibly NULL)
-        qval = cimvalue(qval, qualdecl.type)
-    elif qval is None:
-        if qualdecl.type == 'boolean':
-            qval = True
+    try:
+        if len(p) in (3, 5):
+            # A qualifier value was specified (possibly NULL)
+            qval = cimvalue(qval, qualdecl.type)
+        elif qval is None:
+            if qualdecl.type == 'boolean':
+                qval = True
+            else:
+                qval = qualdecl.value  # default value
         else:
-            qval = qualdecl.value  # default value
-    else:
-        qval = cimvalue(qval, qualdecl.type)
-    p[0] = CIMQualifier(qname, qval, type=qualdecl.type, **flavors)
+            qval = cimvalue(qval, qualdecl.type)
+        p[0] = CIMQualifier(qname, qval, type=qualdecl.type, **flavors)
+    except (ValueError, TypeError, OverflowError) as exc:
+        raise MOFParseError(
+            msg=_format(
+                "Cannot compile element specifying qualifier {0!A} because "
+                "the qualifier specifies an invalid value {1!r} for its "
+                "type {2!A}: {3}",
+                qname, qval, qualdecl.type, exc),
+            parser_token=p)
 
     # Note: The propagated flag is not set because this is parsed MOF, which
     # contains specified qualifiers and not propagated qualifiers.
@@ -1199,6 +1208,24 @@ def p_propertyDeclaration(p):
     p[0] = p[1]
 
 
+def _declared_property(p, name, value, **kwargs):
+    """
+    Return the CIMProperty object for a property or reference declaration in
+    a class. The default value is converted to the declared type by
+    CIMProperty; a default value that cannot be converted is a parse error.
+    """
+    try:
+        return CIMProperty(name, value, **kwargs)
+    except (ValueError, TypeError, OverflowError) as exc:
+        raise MOFParseError(
+            msg=_format(
+                "Cannot compile declaration of property {0!A} because it "
+                "specifies an invalid default value {1!r} for its type "
+                "{2!A}: {3}",
+                name, value, kwargs.get('type'), exc),
+            parser_token=p)
+
+
 def p_propertyDeclaration_1(p):
     """propertyDeclaration_1 : dataType propertyName ';'"""
     p[0] = CIMProperty(p[2], None, type=p[1])
@@ -1206,7 +1233,7 @@ def p_propertyDeclaration_1(p):
 
 def p_propertyDeclaration_2(p):
     """propertyDeclaration_2 : dataType propertyName defaultValue ';'"""
-    p[0] = CIMProperty(p[2], p[3], type=p[1])
+    p[0] = _declared_property(p, p[2], p[3], type=p[1])
 
 
 def p_propertyDeclaration_3(p):
@@ -1217,8 +1244,8 @@ def p_propertyDeclaration_3(p):
 
 def p_propertyDeclaration_4(p):
     """propertyDeclaration_4 : dataType propertyName array defaultValue ';'"""
-    p[0] = CIMProperty(p[2], p[4], type=p[1], is_array=True,
-                       array_size=p[3])
+    p[0] = _declared_property(p, p[2], p[4], type=p[1], is_array=True,
+                              array_size=p[3])
 
 
 def p_propertyDeclaration_5(p):
@@ -1231,8 +1258,8 @@ def p_propertyDeclaration_6(p):
     # pylint: disable=line-too-long
     """propertyDeclaration_6 : qualifierList dataType propertyName defaultValue ';'"""  # noqa: E501
     quals = OrderedDict([(x.name, x) for x in p[1]])
-    p[0] = CIMProperty(p[3], cimvalue(p[4], p[2]),
-                       type=p[2], qualifiers=quals)
+    p[0] = _declared_property(p, p[3], p[4],
+                              type=p[2], qualifiers=quals)
 
 
 def p_propertyDeclaration_7(p):
@@ -1246,9 +1273,9 @@ def p_propertyDeclaration_8(p):
     # pylint: disable=line-too-long
     """propertyDeclaration_8 : qualifierList dataType propertyName array defaultValue ';'"""  # noqa: E501
     quals = OrderedDict([(x.name, x) for x in p[1]])
-    p[0] = CIMProperty(p[3], cimvalue(p[5], p[2]),
-                       type=p[2], qualifiers=quals, is_array=True,
-                       array_size=p[4])
+    p[0] = _declared_property(p, p[3], p[5],
+                              type=p[2], qualifiers=quals, is_array=True,
+                              array_size=p[4])
 
 
 def p_referenceDeclaration(p):
@@ -1272,8 +1299,8 @@ def p_referenceDeclaration(p):
         if len(p) == 5:
             dv = p[3]
     quals = OrderedDict([(x.name, x) for x in quals])
-    p[0] = CIMProperty(pname, dv, type='reference',
-                       reference_class=cname, qualifiers=quals)
+    p[0] = _declared_property(p, pname, dv, type='reference',
+                              reference_class=cname, qualifiers=quals)
 
 
 def p_methodDeclaration(p):
@@ -1594,9 +1621,18 @@ def p_qualifierDeclaration(p):
 
     flavors = _build_flavors(p, flist, None, qualname)
 
-    p[0] = CIMQualifierDeclaration(
-        qualname, dt, value=value, is_array=is_array, array_size=array_size,
-        scopes=scopes, **flavors)
+    try:
+        p[0] = CIMQualifierDeclaration(
+            qualname, dt, value=value, is_array=is_array,
+            array_size=array_size, scopes=scopes, **flavors)
+    except (ValueError, TypeError, OverflowError) as exc:
+        raise MOFParseError(
+            msg=_format(
+                "Cannot compile qualifier declaration {0!A} because it "
+                "specifies an invalid default value {1!r} for its type "
+                "{2!A}: {3}",
+                qualname, value, dt, exc),
+            parser_token=p)
 
 
 def _build_flavors(p, flist, qualdecl, qualname):
